@@ -61,32 +61,3 @@ Print Assumptions C20_reachable_produced.
 Theorem C20_config_unbound : keymap_get [] = Ok [].
 Proof. exact config_unbound. Qed.
 Print Assumptions C20_config_unbound.
-
-(* ---- tie of the model's naming function to the function text in the repository ----------------
-   Gen/Pure.v holds the syntax tree of curtsies.events._key_name (and of get_key, which calls it:
-   Props/C03.v), dumped from the Python AST of the working tree on every run (gen/gen_pure.py);
-   [PyMini.call_in] is the reference semantics of that Python subset (Spec/PyMini.v) run in the
-   context of the events module (Spec/PyEnv.v: the generated tables, Keynames, and the oracle
-   bytes.decode = Model/Utf8.decode).  For ALL byte strings, every encoding name of the alias
-   table and the three naming modes, the repository's text of _key_name gives exactly the model's
-   [key_name]: the table name, the decoded text, "x%02X" of an undecodable single byte,
-   NotImplementedError / UnicodeDecodeError, or the bytes themselves under BYTES naming. *)
-From Curtsies Require Spec.PyMini Gen.Pure Spec.PyEnv Proofs.PureTieKeys.
-Theorem C20_key_name_is_the_repository_function :
-  forall (name : list N) (enc : encoding) (mode : keynames) (seq : list N),
-    PyEnv.codec_of_name name = Some enc -> is_bytes seq = true ->
-    PyMini.call_in PyEnv.ctx0 Pure.py_key_name [PyMini.VBytes seq; PyMini.VStr name; PureTieKeys.embed_mode mode]
-    = PureTieKeys.embed_name mode (key_name enc mode seq).
-Proof. exact PureTieKeys.key_name_tie. Qed.
-Print Assumptions C20_key_name_is_the_repository_function.
-
-(* ... and get_key hands its naming-mode argument to it unchanged (the full statement is
-   C03_get_key_is_the_repository_function) *)
-Theorem C20_get_key_is_the_repository_function :
-  forall (name : list N) (enc : encoding) (mode : keynames) (full : bool) (chunks : list (list N)),
-    PyEnv.codec_of_name name = Some enc -> is_bytes (concat chunks) = true ->
-    PyMini.call_in PyEnv.ctx2 Pure.py_get_key
-      [PureTieKeys.bytes_list chunks; PyMini.VStr name; PureTieKeys.embed_mode mode; PyMini.VBool full]
-    = PureTieKeys.embed_outcome mode (get_key enc mode full (concat chunks)).
-Proof. exact PureTieKeys.get_key_tie. Qed.
-Print Assumptions C20_get_key_is_the_repository_function.
